@@ -59,6 +59,28 @@ func run03b(desc *thrift.TypeDescriptor, dfs []string, tb []byte, opts int) {
 	out.emit(304, fields...)
 }
 
+var escAliasPool = []string{"say \"hi\" ", "tab\t", "back\\slash", "ctl\x01", "nl\n", "q\"\\", "/sol", "\u00e9\"", "del\x7f"}
+
+// copy the aliases the parsed descriptor carries into the abstract shape
+func (g *gen03) syncAlias(t *Ty, d *thrift.TypeDescriptor) {
+	switch t.K {
+	case thrift.STRUCT:
+		for _, f := range t.Fields {
+			fd := d.Struct().FieldById(thrift.FieldID(f.ID))
+			if fd == nil {
+				die("C03 bytes: field %d missing in the descriptor", f.ID)
+			}
+			g.extra[f].alias = fd.Alias()
+			g.syncAlias(f.T, fd.Type())
+		}
+	case thrift.MAP:
+		g.syncAlias(t.Key, d.Key())
+		g.syncAlias(t.Elem, d.Elem())
+	case thrift.LIST, thrift.SET:
+		g.syncAlias(t.Elem, d.Elem())
+	}
+}
+
 func walkOpts(r *rng) int {
 	opts := 0
 	for b := 0; b < 5; b++ {
@@ -112,6 +134,17 @@ func genC03Bytes(r *rng, n int) {
 		for _, e := range g.extra {
 			e.jsconv = false // api.js_conv is outside the walk's options
 		}
+		escAlias := g.r.chance(20)
+		if escAlias {
+			// member keys that need escaping in a JSON string (api.key takes any IDL string literal)
+			for _, s := range g.structs {
+				for _, f := range s.Fields {
+					if g.r.chance(50) {
+						g.extra[f].alias = fmt.Sprintf("%s%d", escAliasPool[g.r.intn(len(escAliasPool))], f.ID)
+					}
+				}
+			}
+		}
 		rootTy := root
 		if g.r.chance(12) {
 			switch g.r.intn(4) {
@@ -129,6 +162,9 @@ func genC03Bytes(r *rng, n int) {
 		desc, err := parse03(idl, inc, thrift.Options{})
 		if err != nil {
 			die("C03 bytes: IDL does not parse: %v\n%s", err, idl)
+		}
+		if escAlias {
+			g.syncAlias(rootTy, desc) // the IDL parser's reading of the literal is what the converter writes
 		}
 		var dfs []string
 		g.descFields(rootTy, &dfs)
